@@ -4,7 +4,23 @@
 import json, subprocess
 
 TRAV_NOTE = "Trusted: the harness's response-graph generator and its own XOR-distance code; the DoQuery seam (no server, no socket: the real traversal.Operation with k-nearest, containers, types and int160 is what runs); the source overlay's yield points (lock-site audit on every build); testing/synctest quiescence."
+WIRE_NOTE = "Trusted: the harness's own bencode codec, KRPC reading of BEP 5/32/42/44 and (for table checks) the verif-tagged read-only snapshot hook; source addresses only in forms a real socket reports; testing/synctest fake clock and quiescence; lock-order scheduling of the instrumented packages."
 claimed = {
+ "C05": dict(
+   text="Seeded deterministic simulation of a real Server's routing table under generated traffic/API/time histories (bucket floods, aliasing IDs and addresses, own/zero IDs, ping time-outs, table maintainer, clock advances): structural invariants and API agreement are evaluated on a snapshot after every datagram that reached the server. Exploration over sampled histories.",
+   note=WIRE_NOTE, design="§5 C05"),
+ "C06": dict(
+   text="Same histories plus blocklists and floods: an admission-evidence model kept from the simulator's own traffic log (who queried, who answered a pending transaction, who was added by API) justifies every appearing entry; every disappearing entry must have been bad or never-answered-and-displaced-by-a-responder; eligible senders must be admitted when there is room. Exploration over sampled histories.",
+   note=WIRE_NOTE, design="§5 C06"),
+ "C09": dict(
+   text="Tables built by traffic (good / questionable / bad, IPv4 / IPv6 entries across buckets) and then probed with find_node/get/get_peers for every want combination, family and target class; each reply's nodes/nodes6 are decoded by the harness and checked against the snapshot for goodness, family, distinctness, count and bucket order relative to the field the method names. Exploration over sampled tables and probes.",
+   note=WIRE_NOTE, design="§5 C09"),
+ "C10": dict(
+   text="Token issue/use trials at arbitrary offsets on the 5-minute rotation grid under the simulated clock (dense at 0/5/10/15 min +-1 ns), with every token mutation, foreign and cross-IP tokens, other source ports and both IP forms; acceptance and silence are judged only by the statement's 10 and 15 minutes against recording peer store, callback and BEP 44 store. Exploration over sampled trials.",
+   note=WIRE_NOTE, design="§5 C10"),
+ "C11": dict(
+   text="Announce/get_peers histories against the real in-memory peer store with a reference map infohash -> IP -> endpoint; every get_peers reply is decoded and checked for exactly the announced endpoints, BEP 32 entry widths per wanted family, and a token. Exploration over sampled histories.",
+   note=WIRE_NOTE, design="§5 C11"),
  "C01": dict(
    text="Seeded deterministic simulation of a real Server in every configuration (peer store, security extension, passive, query hook, WaitToReply, socket family) brought to a populated state by honest traffic and then hit by a storm of hostile datagrams (grammar, mutation, raw levels) while Bootstrap, Announce, getput.Get/Put and pings are in flight whose queries an adversary answers from the right address with the right t and arbitrary field subsets; network faults and clock jumps. A crash or a goroutine stuck on a mutex of real code is caught by the orchestrator/watchdog with its frame, replayed and minimised; afterwards a probe ping, the public API and all in-flight calls are checked. Exploration: evidence over sampled histories.",
    note="Trusted: the harness's hostile-datagram generators reach the relevant decoder/handler paths (probe counters in the evidence); source addresses are only forms a real socket can report; socket read errors are not injected (the code deliberately panics on them); testing/synctest quiescence; 20 s real-time watchdog for wedges.",
